@@ -27,7 +27,7 @@ func init() {
 	fw.Register(&fw.Property{
 		ID:    "C15",
 		Level: "fault_enumeration",
-		Rule: "ENUMERATED limits per persisted log: log shape {single chain of 5-40, two heads (local + replicated branch of unequal length), three heads, merged fork under one head} x limit n in {-5, -1, 0, 1, 2, shortest branch -1/0/+1, total-1, total, total+1, total+50} x {Load(n) per call, NewStoreOptions.MaxHistory = n with Load(0) on a store built with the public constructor over the same cache directory} x store type; the log is written, the instance closed and a fresh instance loads it. One limit per case (a crash is attributed to the limit). " +
+		Rule: "ENUMERATED limits per persisted log: log shape {single chain of 5-40, two heads (local + replicated branch of unequal length), three heads, merged fork under one head} x limit n in {-5, -1, 0, 1, 2, shortest branch -1/0/+1, total-1, total, total+1, total+50} x {Load(n) per call on a fresh store, Load(n) on a fresh store that already received the entries through replication, NewStoreOptions.MaxHistory = n with Load(0) on a store built with the public constructor over the same cache directory} x store type; the log is written, the instance closed and a fresh instance loads it. One limit per case (a crash is attributed to the limit). " +
 			"distinct = (shape, lengths, limit relative to the log, mode, store type); non-trivial = total >= 2 and the load returned",
 		Assumptions: []string{"logs are sampled, limits enumerated", "MaxHistory mode uses a wildcard write list so that the constructor-built store's simple controller is equivalent"},
 		Cases:       c15Cases,
@@ -55,7 +55,10 @@ func c15Cases(tier string, seed int64) []fw.Case {
 				a = 5 + rng.Intn(36)
 			}
 			for _, lim := range []string{"-5", "-1", "0", "1", "2", "short-1", "short", "short+1", "total-1", "total", "total+1", "total+50"} {
-				for mi, mode := range []string{"per-call", "max-history"} {
+				for mi, mode := range []string{"per-call", "max-history", "per-call-after-replication"} {
+					if mode == "per-call-after-replication" && (shape == "chain" || (lim != "1" && lim != "short" && lim != "total-1" && lim != "total+1")) {
+						continue
+					}
 					if mode == "max-history" && (lim == "-5" || lim == "short") && rep == 0 {
 						continue
 					}
@@ -135,6 +138,7 @@ func c15Run(c fw.Case) fw.Verdict {
 		e.W.Flush()
 	}
 	full := TakeSnap(typ, sP, P.Idx)
+	full0Heads := headsOf(sP)
 	total := len(full.Order)
 	authors := map[string]bool{}
 	for _, h := range full.Order {
@@ -151,7 +155,7 @@ func c15Run(c fw.Case) fw.Verdict {
 	ctx, cancel := context.WithTimeout(bg, 60*time.Second)
 	defer cancel()
 	var loadErr error
-	if mode == "per-call" {
+	if mode == "per-call" || mode == "per-call-after-replication" {
 		if err := P.Start(); err != nil {
 			return fw.Verdict{Status: fw.Inconclusive, What: "restart: " + err.Error()}
 		}
@@ -159,6 +163,14 @@ func c15Run(c fw.Case) fw.Verdict {
 			return fw.Verdict{Status: fw.Inconclusive, What: "reopen: " + err.Error()}
 		}
 		s2 = db.Stores[P.Idx]
+		if mode == "per-call-after-replication" {
+			// the entries reach the fresh store through replication before Load(n) is called
+			for _, o := range others {
+				_ = s2.Sync(bg, cloneHeads(headsOf(db.Stores[o.Idx])))
+			}
+			_ = s2.Sync(bg, cloneHeads(full0Heads))
+			e.W.Flush()
+		}
 		loadErr = s2.Load(ctx, n)
 	} else {
 		addr, _ := address.Parse(db.Addr)
